@@ -47,11 +47,13 @@ Proof.
 Qed.
 
 Section LibSim.
+Variable d : dialect.
 Variable ctor_ok : string -> string -> bool -> Prop.
+
 Variable gfuncs : list (var * (list var * list gstmt)).
 Variable gvars : list (var * gexpr).
 
-Notation vrel := (vrel ctor_ok gfuncs).
+Notation vrel := (vrel d ctor_ok gfuncs).
 Notation Gapply := (Gapply gfuncs gvars).
 Notation Glib := (Glib gfuncs gvars).
 Notation gapply := (gapply gfuncs gvars).
@@ -61,9 +63,9 @@ Hypothesis HA : forall fv gf vs gvs t v t',
   vrel fv gf -> Forall2 vrel vs gvs -> sapp fv vs t = Done v t' ->
   exists gv, Gapply gf gvs t gv t' /\ vrel v gv.
 
-Let vI := vrel_asInt ctor_ok gfuncs.
-Let vS := vrel_asStr ctor_ok gfuncs.
-Let vB := vrel_asBool ctor_ok gfuncs.
+Let vI := vrel_asInt d ctor_ok gfuncs.
+Let vS := vrel_asStr d ctor_ok gfuncs.
+Let vB := vrel_asBool d ctor_ok gfuncs.
 
 (** ** observers *)
 Lemma vrel_slice_inv v gv l : vrel v gv -> asSlice sops v = Some l ->
@@ -77,7 +79,7 @@ Proof.
   exists gvs; split; [|exact Vs].
   pose proof (Forall2_length' _ _ _ Vs) as L.
   destruct T as [T|T]; rewrite T in L;
-    destruct gvs as [|a [|b [|c [|d gvs]]]]; try discriminate L; reflexivity.
+    destruct gvs as [|a [|b [|c [|d0 gvs]]]]; try discriminate L; reflexivity.
 Qed.
 
 Lemma map_asInt l gl : Forall2 vrel l gl -> map (asInt gops) gl = map (asInt sops) l.
@@ -140,7 +142,7 @@ Proof.
     destruct (IH _ _ _ _ ltac:(eassumption) ltac:(eassumption) Z) as (gl & Zg & Vl).
     eexists; split; [cbn; rewrite Zg; reflexivity|].
     constructor; [|exact Vl].
-    apply (VR_tuple ctor_ok gfuncs [a; b] [_; _]); [repeat constructor; assumption|left; reflexivity].
+    apply (VR_tuple d ctor_ok gfuncs [a; b] [_; _]); [repeat constructor; assumption|left; reflexivity].
 Qed.
 
 (** ** functions without callbacks *)
